@@ -348,6 +348,9 @@ fn mode_report(argc: c_int, argv: *const *const c_char, envp: *const *const c_ch
         return 78;
     }
     if flags.contains(&b'h') {
+        // held until the monitor ends it, which it does once the call under observation has returned: said in the
+        // process table (comm = "vheld") for the monitor's wait-for analysis
+        unsafe { libc::prctl(libc::PR_SET_NAME, b"vheld\0".as_ptr()) };
         loop {
             unsafe { libc::pause() };
         }
@@ -501,6 +504,25 @@ fn mode_io(argc: c_int, argv: *const *const c_char) -> c_int {
                 }
                 rep.line(&format!("in {} {} {} {}", in_len, in_hash, eof as u8, idx));
                 rep.line(&format!("W {} {} {}", woff[1], gave_up as u8, idx));
+            }
+            "Z" => {
+                // Z<s>: write to stream s for ever, ignoring every error (`while :; do echo ...; done`).  Only a signal
+                // ends it.  Once a write has failed with EPIPE nothing it does can be observed by anybody any more: it
+                // says so in the process table (comm = "vforever") for the wait-for analysis of the monitor.
+                let s = num(rest) as c_int;
+                let mut declared = false;
+                pat_fill(seed, s as u64, 0, &mut buf[..4096]);
+                loop {
+                    let r = unsafe { libc::write(s, buf.as_ptr() as *const _, 4096) };
+                    if r < 0 && errno() == libc::EPIPE {
+                        if !declared {
+                            declared = true;
+                            rep.line(&format!("Z epipe-ignored {}", idx));
+                            unsafe { libc::prctl(libc::PR_SET_NAME, b"vforever\0".as_ptr()) };
+                        }
+                        sleep_ms(2);
+                    }
+                }
             }
             "c" => {
                 unsafe { libc::close(num(rest) as c_int) };
